@@ -51,7 +51,7 @@ THEOREMS = {
             "step_norm", "query_norm", "step_np", "norm_bisim", "queried_indistinguishable"],
     "C11": ["hash_scale_invariant", "vecMul_scale", "hash_zero_projection", "planes_fixed_at_fit", "lsh_partial_hist",
             "lsh_nhood_union", "lshInsert_getD", "mem_hashIdx", "hashIdx_append", "lshInv_fit", "lshInv_partialFit",
-            "lsh_nhood_exact", "self_collision"],
+            "lsh_nhood_exact", "self_collision", "runHist_hist"],
     "C12": ["clusters_cell_rows", "clusters_cell_from_scratch", "clusters_partial_hist", "clusters_query_cell",
             "tree_unobserved_arm", "tree_fit_empty_batch_arm",
             "leafFold_spec", "treeFold_get", "tree_leaf_rewards", "tree_fit_leaf", "tree_partialFit_leaf", "tree_row_arm",
@@ -105,7 +105,7 @@ IMPORTS = {
     "C08": ["MabModel.Props.C08", "MabModel.Props.C08b", "MabModel.Props.C08c"],
     "C09": ["MabModel.Props.C09", "MabModel.Props.C09b"],
     "C10": ["MabModel.Props.C10", "MabModel.Props.C10b"],
-    "C11": ["MabModel.Props.C11"],
+    "C11": ["MabModel.Props.C11", "MabModel.Props.C03b"],
     "C12": ["MabModel.Props.C12", "MabModel.Props.C12b", "MabModel.Props.C12c"],
     "C13": ["MabModel.Props.C13", "MabModel.Props.C13b"],
     "C14": ["MabModel.Props.C14", "MabModel.Props.C14b", "MabModel.Props.FacadeLift"],
